@@ -568,3 +568,44 @@ package saml
 //@ assert@call[C14,C06] Execute #1 (t *template.Template, out io.Writer, data interface{}) html_template_with_form_data:
 //@    t != nil && (t == req.IDP.ResponseFormTemplate || (req.IDP.ResponseFormTemplate == nil && t == defaultResponseFormTemplate)) && isForm(data)
 //@ go func isForm(d interface{}) bool { _, ok := d.(IdpAuthnRequestForm); return ok }
+
+//@ go func idpConfigured(idp *IdentityProvider) bool {
+//@    return idp.Certificate != nil && idp.ServiceProviderProvider != nil && idp.SessionProvider != nil && idp.Logger != nil &&
+//@      forall(0, len(idp.Intermediates), func(k int) bool { return idp.Intermediates[k] != nil }) }
+
+//@ contract NewIdpAuthnRequest
+//@ requires[cfg] r: r != nil && r.URL != nil
+//@ requires[cfg] clock: TimeNow != nil
+//@ ensures[C05,C09] nil_iff_err: (result == nil) == (err != nil)
+//@ ensures[C05] fields: err == nil ==> result.IDP == idp && result.HTTPRequest == r
+//@ -- the redirect binding inflates through the bounded reader
+//@ assert@call[C05,C09] ReadAll #1 (rd io.Reader) bounded_inflate: isSaferFlateReader(rd)
+
+//@ contract (*IdentityProvider).ServeSSO
+//@ requires[cfg] idp: idpConfigured(idp)
+//@ requires[cfg] r: r != nil && r.URL != nil && w != nil
+//@ requires[cfg] clock: TimeNow != nil
+//@ requires[cfg] rand: xmlenc.RandReader != nil
+//@ requires[cfg] cipher: xmlenc.AES128CBC != nil && xmlenc.AES128CBC.KeySize() >= 0
+//@ requires[cfg] tmpl: defaultResponseFormTemplate != nil
+//@ -- a response is written only for a validated request, an existing session and a registered endpoint
+//@ assert@call[C05,C19] WriteResponse #1 (rq *IdpAuthnRequest) uses session *Session only_authenticated: session != nil
+//@ assert@call[C05,C19] WriteResponse #1 (rq *IdpAuthnRequest) same_idp: rq.IDP == idp
+//@ assert@call[C05] WriteResponse #1 (rq *IdpAuthnRequest) only_registered_endpoint: registeredACS(rq)
+//@ assert@call[C05,C19] WriteResponse #1 (rq *IdpAuthnRequest) only_known_sp: rq.Request.Issuer != nil &&
+//@    RegistryHas(idp.ServiceProviderProvider, rq.Request.Issuer.Value, rq.ServiceProviderMetadata)
+//@ assert@call[C05] WriteResponse #1 (rq *IdpAuthnRequest) only_fresh_v2: ns(rq.Now) <= ns(rq.Request.IssueInstant)+int64(MaxIssueDelay) && rq.Request.Version == "2.0"
+
+//@ contract (*IdentityProvider).ServeIDPInitiated
+//@ requires[cfg] idp: idpConfigured(idp)
+//@ requires[cfg] r: r != nil && r.URL != nil && w != nil
+//@ requires[cfg] clock: TimeNow != nil
+//@ requires[cfg] rand: xmlenc.RandReader != nil
+//@ requires[cfg] cipher: xmlenc.AES128CBC != nil && xmlenc.AES128CBC.KeySize() >= 0
+//@ requires[cfg] tmpl: defaultResponseFormTemplate != nil
+//@ -- IdP-initiated: a response only with a session, to a provider the registry knows now, at one of its POST endpoints
+//@ assert@call[C05,C19] WriteResponse #1 (rq *IdpAuthnRequest) uses session *Session only_registered_and_authenticated:
+//@    session != nil && rq.IDP == idp && registeredACS(rq) && rq.ACSEndpoint.Binding == HTTPPostBinding &&
+//@    RegistryHas(idp.ServiceProviderProvider, serviceProviderID, rq.ServiceProviderMetadata) && rq.RelayState == relayState
+//@ loop 1 vars req *IdpAuthnRequest
+//@ invariant[C05] not_yet: req.ACSEndpoint == nil
